@@ -76,6 +76,12 @@ CHECKS = {
     text="Search, not proof: 2.4k/150k manifest pairs and 0.4k/30k patch documents per tier over every template x supported mode, single- and multi-period routes; on a not-well-formed response the responsible sink is isolated by re-requesting with one hostile string at a time.",
     note=SHIMS + ". Own application instance (stored strings are rewritten per case). One open known finding (C05-K1: manifest_h/manifest_i omit publishTime).",
     design_ref="DESIGN.md section 4, C05"),
+ "C09": dict(
+    engine="hypothesis",
+    technique="metamorphic pairs (T1, T2=T1+delta) of live manifests expanded by the independent MPD reader; MPD patch applied with an independent RFC 5261 <replace> applier and compared with the full manifest of the same instant",
+    text="Search, not proof: 1.5k/100k pairs per tier over timeline-capable templates, fixture and synthetic streams, deltas from 1 ms to 3 days in classes (< segment, < loop, < day, >= day), half of them with patches.",
+    note=SHIMS + ". One open known finding (C09-K1: first timeline entry can step back while the depth is still growing).",
+    design_ref="DESIGN.md section 4, C09"),
 }
 
 _PENDING = "check under construction in this build round; not yet registered (see DESIGN.md section 9)"
